@@ -92,6 +92,17 @@ class Acc:
         self.distinct: set[int] = set()
         self.inconclusive: list[str] = []
         self.sets: dict[str, set] = {}
+        # group digest -> number of distinct non-trivial cases inside that group; merged with max(),
+        # so identical groups seen by two workers are never counted twice (conservative)
+        self.groups: dict[str, int] = {}
+
+    def group_distinct(self, group_key: str, n: int) -> None:
+        if n > self.groups.get(group_key, 0):
+            self.groups[group_key] = n
+
+    @property
+    def n_distinct(self) -> int:
+        return len(self.distinct) + sum(self.groups.values())
 
     def count(self, key: str, n: int = 1) -> None:
         self.c[key] += n
@@ -131,6 +142,7 @@ class Acc:
             "known": self.known,
             "distinct": sorted(self.distinct),
             "inconclusive": self.inconclusive,
+            "groups": self.groups,
             "sets": {k: sorted(jsonable(i) for i in v) for k, v in self.sets.items()},
         }
 
@@ -150,6 +162,8 @@ class Acc:
             cur["count"] += k["count"]
         self.distinct.update(d.get("distinct", []))
         self.inconclusive.extend(d.get("inconclusive", []))
+        for g, n in d.get("groups", {}).items():
+            self.group_distinct(g, n)
         for k, v in d.get("sets", {}).items():
             s = self.sets.setdefault(k, set())
             for i in v:
@@ -277,7 +291,7 @@ class Run:
 
         coverage: dict = {
             "evaluations": int(acc.c.get(evaluations_key, 0)),
-            "distinct_nontrivial": len(acc.distinct),
+            "distinct_nontrivial": acc.n_distinct,
             "rule": rule,
             "samples": acc.samples or ["<no sample recorded>"],
             "counters": dict(sorted(acc.c.items())),
@@ -287,9 +301,9 @@ class Run:
                 for fid, k in sorted(acc.known.items())
             },
             "observed_sets": {
-                k: (sorted(jsonable(i) for i in v)[:60]) for k, v in sorted(acc.sets.items())
+                k: (sorted(jsonable(i) for i in v)[:60]) for k, v in sorted(acc.sets.items()) if not k.startswith("_")
             },
-            "observed_set_sizes": {k: len(v) for k, v in sorted(acc.sets.items())},
+            "observed_set_sizes": {k: len(v) for k, v in sorted(acc.sets.items()) if not k.startswith("_")},
             "inconclusive_reasons": acc.inconclusive[:20],
         }
         if exhaustive is not None:
@@ -320,7 +334,7 @@ class Run:
         # ---- report
         print(
             f"[{self.prop}] tier={self.tier} seed={self.seed} verdict={verdict} "
-            f"evaluations={coverage['evaluations']} distinct_nontrivial={len(acc.distinct)} "
+            f"evaluations={coverage['evaluations']} distinct_nontrivial={acc.n_distinct} "
             f"wall={wall:.1f}s"
         )
         for k, v in sorted(acc.c.items()):
@@ -334,7 +348,7 @@ class Run:
         if acc.nviol:
             for v, path in zip(acc.violations, replay_paths):
                 print(f"VIOLATION property={self.prop} replay={path}")
-                print("    " + json.dumps(v, ensure_ascii=True)[:1200])
+                print("    " + brief_violation(v))
             if acc.nviol > len(acc.violations):
                 print(f"    (+{acc.nviol - len(acc.violations)} more violations not written)")
             return 1
@@ -343,6 +357,15 @@ class Run:
                 print(f"INCONCLUSIVE property={self.prop} reason={r[:160]} ... {r[-500:] if len(r) > 160 else ''}")
             return 2
         return 0
+
+
+def brief_violation(v: dict) -> str:
+    keys = [k for k in v if k not in ("rules", "kind")]
+    parts = []
+    for k in keys:
+        x = json.dumps(v[k], ensure_ascii=True)
+        parts.append(f"{k}={x[:400]}")
+    return " ".join(parts)[:1500]
 
 
 def load_replay(path: str) -> dict:
